@@ -195,6 +195,34 @@ func c09TextProbe(env *Env) {
 	if env.Failed() {
 		return
 	}
+	// small hand-made dictionaries with structural oddities (components referring to themselves or to each
+	// other, missing sections), whole or damaged
+	odd := []string{
+		`<fix type="FIX" major="4" minor="2"><header/><trailer/><messages/><components><component name="A"><component name="A" required="N"/></component></components><fields/></fix>`,
+		`<fix type="FIX" major="4" minor="2"><header/><trailer/><messages/><components><component name="A"><component name="B" required="N"/></component><component name="B"><component name="A" required="Y"/></component></components><fields/></fix>`,
+		`<fix type="FIX" major="4" minor="4"><header/><trailer/><messages><message name="M" msgtype="M" msgcat="app"><component name="A" required="N"/></message></messages><components><component name="A"><group name="NoX" required="N"><component name="A" required="N"/></group></component></components><fields><field number="1000" name="NoX" type="NUMINGROUP"/></fields></fix>`,
+		`<fix type="FIXT" major="1" minor="1"><messages/><fields/></fix>`,
+		`<fix type="FIX" major="4" minor="2"><header><field name="Nope" required="Y"/></header><trailer/><messages/><fields/></fix>`,
+		`<fix type="FIX" major="x" minor="2"/>`,
+		`<fix type="FIX" major="4" minor="2"><messages><message name="M" msgtype="M" msgcat="app"><group name="G" required="Y"></group></message></messages><fields><field number="5" name="G" type="NUMINGROUP"/></fields></fix>`,
+	}
+	{
+		x := []byte(odd[ch.Choose("oddxml", len(odd))])
+		if ch.Chance("oddxmldamage", 1, 3) {
+			x = damage(x)
+		}
+		guard("datadictionary.ParseSrc", x, func() {
+			if dd, err := datadictionary.ParseSrc(bytes.NewReader(x)); err == nil && dd != nil {
+				// a dictionary that loads is usable for parsing
+				m := quickfix.NewMessage()
+				_ = quickfix.ParseMessageWithDataDictionary(m, bytes.NewBufferString("8=FIX.4.2\x019=12\x0135=M\x011000=1\x0110=000\x01"), dd, dd)
+			}
+		})
+		env.Stat("probe_api_odd_dictionary")
+		if env.Failed() {
+			return
+		}
+	}
 	name := []string{"FIX40", "FIXT11"}[ch.Choose("xmlfile", 2)]
 	if src := c09XML[name]; src != nil {
 		x := damage(src)
